@@ -14,6 +14,8 @@ RULE = ('bounded-exhaustive token soups over the 46-token LaTeX-significant alph
         'the public reader API: peek leaves cur_pos unchanged and equals the following next; '
         'next moves forward; reads <= len(input); move_to_token + next reproduces token and '
         'position; pre_space + source slice of all tokens + final_space == input. '
+        'Reads are repeated with a peek under another parsing state before each read; the '
+        'token-list reader is driven through the same protocol. '
         'Non-trivial = string yields >= 2 tokens of different kinds; distinct by '
         '(string, configuration), each enumerated once.')
 ASSUMPTIONS = [
